@@ -18,6 +18,7 @@ func init() {
 }
 
 func c04(c *q.Ctx) {
+	ledgerMetaStaging(c)
 	// who may delete a height-index row: only the removal of blocks (Truncate). Saving an off-trunk header must not
 	// touch the row of its height - the row belongs to the TRUNK block of that height, which a side-branch block of
 	// the same height does not replace
@@ -204,4 +205,29 @@ func dupTxDecision(c *q.Ctx, cb *ssa.Function) {
 		dup3 := q.Cond{Canon: "(phi{ledger.(*Ledger).handleFork(*)#0.Height|proto.Clone(p0.meta).TrunkHeight} < " + old + ".Height)", Sense: false}
 		c.Effect(cb, q.Eff{Spec: "Ledger.handleFork", Arg: 0, Glob: "*", Why: "anchor", Rule: "K6"})
 		c.FieldStoreUnder(cb, "ConfirmStatus.Error", "g:ErrTxDuplicated", []q.Cond{dup1, dup2, dup3}, "a transaction already in a trunk block at or below the split height rejects the block (three conjuncts)")
+}
+
+// ledgerMetaStaging (C04, C06): the ledger meta that goes into the batch is serialised AFTER its last field was set -
+// the in-memory copy is the same object and stays right, so a record marshalled early (new tip, old trunk height) shows
+// only after a restart.
+func ledgerMetaStaging(c *q.Ctx) {
+	const led = "bcs/ledger/xledger/ledger::"
+	marshalMeta := q.Target{Name: "the meta record is serialised (proto.Marshal of the cloned meta)", Instr: func(i ssa.Instruction) bool {
+		ci, ok := i.(ssa.CallInstruction)
+		return ok && q.Callee(ci.Common()).Match("proto::Marshal") && len(ci.Common().Args) == 1 && q.Canon(ci.Common().Args[0]) == "proto.Clone(p0.meta)"
+	}}
+	metaField := q.Target{Name: "a field of the cloned meta is set", Instr: func(i ssa.Instruction) bool {
+		st, ok := i.(*ssa.Store)
+		if !ok {
+			return false
+		}
+		fa, ok := st.Addr.(*ssa.FieldAddr)
+		return ok && strings.HasPrefix(q.TypeField(fa), "LedgerMeta.") && q.Canon(fa.X) == "proto.Clone(p0.meta)"
+	}}
+	for _, name := range []string{"Truncate", "ConfirmBlock"} {
+		if f := c.Fn(led + "(*Ledger)." + name); f != nil {
+			c.NeverAfter(f, marshalMeta, metaField, "what is persisted is the meta as it is published")
+			c.Before(f, marshalMeta, q.ToCall("Batch.Write"), "the meta travels in the operation's batch")
+		}
+	}
 }
